@@ -26,7 +26,7 @@ def teardown(_):
 
 
 def cnum(c):
-    return 23 if c == "X" else int(c)
+    return {"X": 23, "Y": 24, "MT": 25}.get(c) or int(c)
 
 
 def gen(rng, tier, no_repl_only=False, region_p=0.25):
@@ -59,7 +59,7 @@ def gen(rng, tier, no_repl_only=False, region_p=0.25):
         extra = rng.random() < 0.5
         if extra:
             # the panel holds more chromosomes than requested: before, between and after the requested ones
-            others = [c for c in ["1", "2", "3", "X"] if c not in chroms]
+            others = [c for c in ["1", "2", "3", "X", "Y", "MT"] if c not in chroms]  # Y / MT: non-numeric contigs that are never simulated
             ref_chroms = sorted(set(chroms) | set(rng.sample(others, rng.randint(1, len(others)))), key=cnum)
         prefix = "chr" if rng.random() < 0.3 else ""
         want_region = rng.random() < region_p
@@ -71,6 +71,9 @@ def gen(rng, tier, no_repl_only=False, region_p=0.25):
             poss = sorted(set(rng.sample([1, 50, 100, 101, 200, 201, 250, 300, 301, 400, 401, 500, 501, 900, 100000], rng.randint(1, 6))))
             for p in poss:
                 variants.append([f"v{c}_{p}", prefix + c, p])
+                if rng.random() < 0.15:
+                    # a second record at the same position (a split multi-allelic site, a SNP next to an indel)
+                    variants.append([f"v{c}_{p}b", prefix + c, p])
         region = None
         if want_region:
             c = rng.choice(chroms)
